@@ -80,7 +80,8 @@ theorem SimF.scoped {inner pre post : List Instr} {m : Nat → Nat} {s : St} {rs
       ⟨⟨by show s3.linear.tail = _; rw [hlin3]; rfl, fr3.curfunc, fr3.addr, fr3.susp, hfl, hfo, fr3.loopsLen, fr3.loops⟩,
         Nat.le_trans (by show s.scopes.length ≤ (s.scopes ++ [_]).length; simp) fr3.scLen, hflags⟩
     refine ⟨_, m3, w, ((r1.toX.trans r).trans r4.toX), l4, hv,
-      hrel.back rel3 rfl rfl rfl rfl (by show s3.linear.tail = _; rw [hlin3]; rfl) fr3.curfunc hflags hfl hfo hext,
+      hrel.back rel3 rfl rfl rfl rfl (by show s3.linear.tail = _; rw [hlin3]; rfl) fr3.curfunc hflags hfl hfo hext
+        ⟨fr3.loopsLen, fr3.loops⟩,
       hm3, ⟨hext, ext3.2⟩, hframe,
       ValIn.mono hcl (fun id hg => hg.mono (FnsKeep.of_fns_eq rfl) (Nat.le_refl _) (fun _ _ => rfl) (RExt.refl _) rfl)⟩
   | err rs3 => exact (FailsX.of_reach r1.toX hin)
@@ -1008,7 +1009,8 @@ theorem fclaimE_for {n : Nat} (hE : FClaimE n) (hF : FClaimF n) {fnOk : Bool} {s
   have hkt := compile_keep_Ff htest ht hfn'
   have hks := compile_keep_Ff hincr hs hfn'
   -- the templates of the four parts
-  have hg0 : fnOk = true → GenOk (forGs gs c label) g5 s := fun h => ⟨(hgen h).live, (hgen h).main, (hgen h).len, (hgen h).tmpl⟩
+  have hg0 : fnOk = true → GenOk (forGs gs c label) g5 s := fun h => ⟨(hgen h).live, (hgen h).main, (hgen h).len, (hgen h).tmpl,
+    (hgen h).loops.for_body (((hkb.1.trans hki.1).trans hkt.1).trans hks.1) (KeepFns.refl g5)⟩
   have hgb : fnOk = true → GenOk (forGs gs c label) g2 s := fun h => (hg0 h).first ((hki.1.trans hkt.1).trans hks.1)
   have hgi : fnOk = true → GenOk g2 g3 s := fun h => ((hg0 h).rest hkb.1).first (hkt.1.trans hks.1)
   have hgt : fnOk = true → GenOk g3 g4 s := fun h => ((hg0 h).rest (hkb.1.trans hki.1)).first hks.1
@@ -1067,7 +1069,8 @@ theorem fclaimE_for {n : Nat} (hE : FClaimE n) (hF : FClaimF n) {fnOk : Bool} {s
   have hfr24 : FrameF s2 s4 := by subst hs4; exact (FrameF.jmp _ _ _).trans (FrameF.jmp _ _ _)
   have hfn4 : fnOf s4 s4.curfunc = fnOf s s.curfunc := by subst hs4; exact hfn2
   have hfns4 : s4.fns = s.fns := by subst hs4; exact hfns2
-  have hk04 : FnsKeep s s4 := FnsKeep.of_fns_eq hfns4
+  have hk04 : FnsKeep s s4 := FnsKeep.of_fns_eq hfns4 ⟨Nat.le_trans hfr2.loopsLen hfr24.loopsLen, fun id hid =>
+    (hfr24.loops id (Nat.lt_of_lt_of_le hid hfr2.loopsLen)).trans (hfr2.loops id hid)⟩
   have hreach4 : ReachX s s4 := ((r0.trans r1).trans r2).trans r3
   -- the initialiser
   have hseg4 : Seg s4 (pre ++ fHd gs.loops.length) ri.1 (fMid gs.loops.length rsn.1 ++ rsn.1
@@ -1164,7 +1167,7 @@ theorem fclaimE_for {n : Nat} (hE : FClaimE n) (hF : FClaimF n) {fnOk : Bool} {s
         (hm8 id (Nat.lt_of_lt_of_le (by rw [hfns4]; exact hid) fr6.fnsLen)).trans (hm6 id (by rw [hfns4]; exact hid))
       refine ⟨_, m8, .nil, (((((hreach7.trans r8).trans r9).trans r10).trans r11).trans r12), ⟨hfn10, ?_, ?_⟩, rfl,
         (hrel.back (s₅ := s10.popScope) rel10 rfl rfl rfl rfl (by show s10.linear.tail = _; rw [hlin10]; rfl) hfr_in.curfunc
-          hflags hfl hfo hext).jmp _ _, hm08, ⟨hext, fun i c' hc' => (ext6.trans ext8).2 i c' hc'⟩, hframe.trans (FrameF.jmp _ _ _),
+          hflags hfl hfo hext ⟨hfr_in.loopsLen, hfr_in.loops⟩).jmp _ _, hm08, ⟨hext, fun i c' hc' => (ext6.trans ext8).2 i c' hc'⟩, hframe.trans (FrameF.jmp _ _ _),
         vOk_lit .nil (fun _ _ _ => rfl)⟩
       · show s10.pc + 1 + 1 = _
         rw [hpc10, hpc, hlen]; push_cast; omega
